@@ -26,6 +26,7 @@ import (
 
 	"verifharness/pbt"
 	"verifharness/pmodel"
+	"verifharness/t2jcheck"
 	"verifharness/tjson"
 	tm "verifharness/tmodel"
 )
@@ -679,3 +680,8 @@ var Prop = pbt.Register(pbt.Prop[Case]{
 func TestArbitraryBytes(t *testing.T) { pbt.Run(t, Prop) }
 
 var _ = strings.Contains
+
+// t2j into caller buffers of every capacity: same text, no panic.
+var T2JSweep = pbt.Register(t2jcheck.SweepProp("TestT2JCapacitySweep"))
+
+func TestT2JCapacitySweep(t *testing.T) { pbt.Run(t, T2JSweep) }
